@@ -174,6 +174,7 @@ func (s *Server) handle(method string, known bool, kind, name, key string, body 
 		if err := json.Unmarshal(body, &o); err != nil {
 			return status(400, "BadRequest", err.Error())
 		}
+		storageVersion(kind, o)
 		s.Objs[key] = o
 		s.Muts = append(s.Muts, Mut{"create", key})
 		return okJSON(201, o)
@@ -185,6 +186,7 @@ func (s *Server) handle(method string, known bool, kind, name, key string, body 
 		if err := json.Unmarshal(body, &o); err != nil {
 			return status(400, "BadRequest", err.Error())
 		}
+		storageVersion(kind, o)
 		if !jsonEqual(cur, o) {
 			s.Muts = append(s.Muts, Mut{"patch", key})
 		}
@@ -219,6 +221,7 @@ func (s *Server) handle(method string, known bool, kind, name, key string, body 
 		if strings.Contains(ctype, "strategic-merge-patch") {
 			scrubTyped(o)
 		}
+		storageVersion(kind, o)
 		if !jsonEqual(cur, o) {
 			s.Muts = append(s.Muts, Mut{"patch", key})
 		}
@@ -253,6 +256,16 @@ func typedFor(kind string) interface{} {
 		return appsv1.Deployment{}
 	}
 	return v1.ConfigMap{}
+}
+
+// storageVersion: a kind served under several versions of its API group (Deployment: apps/v1, apps/v1beta2,
+// apps/v1beta1 in the kubectl test mapper) is ONE stored object whatever version a request names; the
+// stand-in keeps it at the group's preferred version, so that moving a manifest from one version to
+// another is not by itself a change of the object.
+func storageVersion(kind string, o map[string]interface{}) {
+	if kind == "Deployment" && o != nil {
+		o["apiVersion"] = "apps/v1"
+	}
 }
 
 // scrubTyped removes what a real API server loses when it decodes the patched document into the Go type of
@@ -433,6 +446,7 @@ func (s *Server) PutRaw(nskind, name string, obj map[string]interface{}) {
 		o["metadata"] = md
 	}
 	md["name"], md["namespace"] = name, ns
+	storageVersion(kind, o)
 	s.mu.Lock()
 	s.Objs[Key(ns, kind, name)] = o
 	s.mu.Unlock()
